@@ -52,14 +52,12 @@ class SerializerModel:
     def m_loads(self, E, st, obj, args, kw):
         out = [may_raise(E, st, "loads")]
         r = VOpaque(fresh("loaded", U))
-        st.event("loads", obj, args[0], r)
         out.insert(0, Res(st, r))
         return out
 
     def m_loadsCall(self, E, st, obj, args, kw):
         out = [may_raise(E, st, "loadsCall")]
         r = VTuple([VOpaque(fresh("req_" + n, U)) for n in ("objId", "method", "vargs", "kwargs")])
-        st.event("loadsCall", obj, args[0], r)
         out.insert(0, Res(st, r))
         return out
 
@@ -120,7 +118,7 @@ def uuid_ctor(E, st, args, kw):
 def uuid4(E, st, args, kw):
     b = fresh("uuid4_bytes", BytesS)
     st.assume(z3.Length(b) == 16)
-    return [Res(st, st.new_obj("uuid.UUID", bytes=VBytes(b), hex=VStr(fresh("uuid_hex", StrS))))]
+    return [Res(st, st.new_obj("uuid.UUID", bytes=VBytes(b)))]
 
 
 # ---------------------------------------------------------------------------------------------------------------------
@@ -147,8 +145,15 @@ def _sd_update(self, E, st, obj, args, kw):
     return [Res(st, NONE)]
 
 
+def _sd_clear(self, E, st, obj, args, kw):
+    st.set(obj, "n", VInt(0))
+    st.set(obj, "prov", frozenset(["empty"]))
+    return [Res(st, NONE)]
+
+
 SeqDict.m_update = _sd_update
 SeqDict.methods["update"] = _sd_update
+SeqDict.methods["clear"] = _sd_clear
 
 
 @R.spec("syntax.dict_display", doc="{k: v, ...} of arbitrary values: an opaque dict value (its entries are remembered as a ghost tuple)")
@@ -273,3 +278,5 @@ def format_traceback(E, st, args, kw):
 
 
 R.inline("Pyro5.server.Daemon.__annotations")
+
+R.glob("Pyro5.svr_threads._client_disconnect_lock", VObj(-1, "lock"), "module-level lock serialising disconnect handling")
